@@ -20,7 +20,8 @@ import (
 	"verif/simtest/syssim"
 )
 
-func gen(full bool) func(p *simrt.Tape) any {
+// Gen returns the plan generator of the focused (full=false) or full whole-system variant.
+func Gen(full bool) func(p *simrt.Tape) any {
 	return func(p *simrt.Tape) any {
 		pl := &syssim.Plan{
 			Seed:                  uint64(p.Intn(1 << 16)),
@@ -83,6 +84,7 @@ func gen(full bool) func(p *simrt.Tape) any {
 		for i, n := 0, p.Pick(3); i < n; i++ {
 			pl.Reorgs = append(pl.Reorgs, syssim.Reorg{Slot: startSlot + uint64(p.Intn(int(pl.HorizonSlots-startSlot))), Kind: p.Pick(3)})
 		}
+		pl.CoincideReorg = len(pl.Reorgs) > 0 && p.Bool()
 		for i, n := 0, p.Pick(3); i < n; i++ {
 			pl.Missed = append(pl.Missed, startSlot+uint64(p.Intn(int(pl.HorizonSlots-startSlot))))
 		}
@@ -93,6 +95,13 @@ func gen(full bool) func(p *simrt.Tape) any {
 			}
 			at += time.Duration(p.Intn(int((time.Duration(pl.HorizonSlots-startSlot)*slot)/time.Millisecond))) * time.Millisecond
 			pl.Restarts = append(pl.Restarts, syssim.Restart{At: at, Down: []time.Duration{time.Second, slot, 3 * slot}[p.Pick(3)]})
+		}
+		// duties just outside (or far outside) the requested epoch in a node's answer: to be ignored
+		if p.Pct(40) {
+			for i, n := 0, p.Range(1, 2); i < n; i++ {
+				pl.Odd = append(pl.Odd, syssim.OddContent{Method: []string{"AttesterDuties", "ProposerDuties"}[p.Pick(2)], Call: p.Intn(6),
+					Kind: []string{"next-epoch-first", "prev-epoch-last", "other-epoch", "next-epoch-first"}[p.Pick(4)]})
+			}
 		}
 		// faults on duty fetches
 		if p.Pct(50) {
@@ -536,6 +545,6 @@ func Oracle(rec *syssim.Record, out *sim.Outcome) *simrt.Violation {
 }
 
 func init() {
-	sim.Register(&sim.Scenario{Property: "C03", Name: "focused", Gen: gen(false), Exec: exec, Weight: 3})
-	sim.Register(&sim.Scenario{Property: "C03", Name: "full", Gen: gen(true), Exec: exec, Weight: 1})
+	sim.Register(&sim.Scenario{Property: "C03", Name: "focused", Gen: Gen(false), Exec: exec, Weight: 3})
+	sim.Register(&sim.Scenario{Property: "C03", Name: "full", Gen: Gen(true), Exec: exec, Weight: 1})
 }
